@@ -214,7 +214,15 @@ func TestC34(t *testing.T) {
 					os.RemoveAll(dir3)
 					fail(k2, err.Error())
 				}
-				if err := checkNoPhantomsMax(cr, k1, []*wl.Dump{r3.Dump}, rec, 3); err != nil {
+				cr.l2PrimaryWritten = false
+				for i := 0; i < k2; i++ {
+					if e := ev2[i]; e.Kind == crashfs.EvWrite && strings.HasSuffix(e.Path, ".bin") && e.Off >= 37024 {
+						cr.l2PrimaryWritten = true
+					}
+				}
+				err := checkNoPhantomsMax(cr, k1, []*wl.Dump{r3.Dump}, rec, 3)
+				cr.l2PrimaryWritten = false
+				if err != nil {
 					os.RemoveAll(dir3)
 					fail(k2, err.Error())
 				}
